@@ -29,6 +29,16 @@ CHECKS = {
  'C18': ('C18_AtMostOnce model-checked; real runs with no / fresh / pre-loaded (every subset) / reused caller caches; loader log and hook '
          'trace judged by TLC (ExpTrace.tla); outputs compared across cache modes.',
          '6 (C18)', 'TLA+ model checking (TLC) + TLC trace validation of cache/loader events + replay under every cache state'),
+ 'C05': ('PtrCases.tla laws (RFC 6901 decode inverts encode) model-checked and every enumerated name replayed; every node of every enumerated '
+         'graph referenced from the root and resolved through all Resolve* entry points in the three root modes; designation computed by '
+         'TLC (Urls!Resolve + pointer lookup), result digest compared with the designated sub-document.',
+         '6 (C05)', 'TLA+ enumeration + model laws (TLC) + replay through Resolve* + TLC-evaluated designation oracle'),
+ 'C11': ('Spell.tla transition system of equivalence-preserving rewrites model-checked (C11_Canon, C11_Idempotent); every reachable spelling '
+         'replayed as RelativeBase; loader requests compared with canonical URLs by TLC.',
+         '6 (C11)', 'TLA+ model checking (TLC) of the spelling transition system + replay of every reachable state'),
+ 'C12': ('Urls.tla (RFC 3986 5.2) laws model-checked, cross-checked against net/url on every pair; exhaustive (base, ref) enumeration '
+         'replayed through two entry points with a recording loader; TLC compares.',
+         '6 (C12)', 'TLA+ RFC 3986 oracle (TLC) + exhaustive replay with recording loader'),
 }
 
 NA = {
